@@ -20,13 +20,6 @@ LEVEL = "proof"
 TRANSLATORS = []
 DRIVER = "drv_c20"
 
-# Two behaviours of TriangularLattice(full_patch=True) on the pinned tree are mirrored by the model and *recorded* (ctx.notes /
-# distribution), not alarmed, until the lead decides how to classify them (known_findings.json is a shared file):
-#   T1  bonds() with dirn=None raises TypeError (tuple + list),
-#   T2  on 'obc'/'cylinder' bonds('d') contains Bond(None, …) entries.
-# Setting this to True turns them into oracle failures with the stable keys c20:tri-bonds-typeerror / c20:tri-bond-none.
-REPORT_TRI_FINDINGS = False
-
 DIRS = ["tl", "t", "tr", "l", "r", "bl", "b", "br"]          # order of Dir.all in the model
 DVEC = {"tl": (-1, -1), "t": (-1, 0), "tr": (-1, 1), "l": (0, -1), "r": (0, 1), "bl": (1, -1), "b": (1, 0), "br": (1, 1)}
 OPP = {"tl": "br", "t": "b", "tr": "bl", "l": "r", "r": "l", "bl": "tr", "b": "t", "br": "tl"}
@@ -347,11 +340,11 @@ def oracle_geometry(ctx, spec, g, win, nwin, pwin, rec):
         if isinstance(B["n"], dict) or B["n"] != B["h"] + B["v"] or B["nr"] != B["vr"] + B["hr"]:
             bad("bonds-all", "bonds() is not horizontal followed by vertical bonds (reverse: reversed)")
     else:
-        if isinstance(B["n"], dict):
-            ctx.count("finding:T1-tri-full-bonds-typeerror")
-            if REPORT_TRI_FINDINGS:
-                bad("tri-bonds-typeerror", "TriangularLattice(full_patch=True).bonds() raises TypeError (tuple + list)")
-        elif B["n"] != B["h"] + B["v"] + B["d"] or B["nr"] != B["dr"] + B["vr"] + B["hr"]:
+        if isinstance(B["n"], dict) or isinstance(B["nr"], dict) or isinstance(B["d"], dict) or isinstance(B["dr"], dict):
+            bad("tri-bonds-typeerror", f"TriangularLattice.bonds() raises TypeError (n={str(B['n'])[:40]}, d={str(B['d'])[:40]})")
+            ctx.count(f"oracle-geom:{tag}")
+            return
+        if B["n"] != B["h"] + B["v"] + B["d"] or B["nr"] != B["dr"] + B["vr"] + B["hr"]:
             bad("bonds-all", "bonds() is not h + v + d bonds (reverse: reversed)")
         dl = B["d"]
         if B["dr"] != dl[::-1]:
@@ -359,19 +352,28 @@ def oracle_geometry(ctx, spec, g, win, nwin, pwin, rec):
         seen = []
         for b in dl:
             if b[0] is None or b[1] is None:
-                ctx.count("finding:T2-tri-full-bond-none")
-                if REPORT_TRI_FINDINGS:
-                    bad("tri-bond-none", f"bonds('d') contains {b} on a finite full-patch triangular lattice")
+                bad("tri-bond-none", f"bonds('d') contains a bond with a None end point: {b}")
                 continue
             s0, s1 = tuple(b[0]), tuple(b[1])
             # diagonal bond: bottom-left site first, its top-right neighbour second
-            if ref_nn(spec, s0, DVEC["tr"]) != s1 and ref_nn({**spec, "boundary": "infinite"}, s0, DVEC["tr"]) != s1:
-                bad("bond-diag", f"diagonal bond {(s0, s1)} does not join 'tr' neighbours", bond=[list(s0), list(s1)])
+            if ref_nn(spec, s0, DVEC["tr"]) != s1 or ref_nn(spec, s1, DVEC["bl"]) != s0:
+                bad("bond-diag", f"diagonal bond {(s0, s1)} does not join mutual 'tr'/'bl' neighbours", bond=[list(s0), list(s1)])
+            if site_idx(s0) not in uniq_set or site_idx(s1) not in uniq_set:
+                bad("bond-endpoint", f"end point of listed diagonal bond {(s0, s1)} is not a lattice site", bond=[list(s0), list(s1)])
             if not g.f_ordered(s0, s1):
                 bad("bond-forder", f"diagonal bond {(s0, s1)} is not fermionically ordered", bond=[list(s0), list(s1)])
             seen.append((s0, s1))
         if len(set(seen)) != len(seen):
             bad("bonds-dup", f"a diagonal bond is listed twice: {seen}")
+        dcls = [(site_idx(a), site_idx(b)) for a, b in seen]
+        if len(set(dcls)) != len(dcls):
+            bad("bond-class-dup", f"a unique diagonal bond (pair of tensor indices) is listed twice: {dcls}")
+        if spec["full_patch"]:
+            # every site of the cell whose bottom and right neighbours both exist contributes exactly its diagonal bond
+            want_d = [(ref_nn(spec, s, DVEC["b"]), ref_nn(spec, s, DVEC["r"])) for s in sites]
+            want_d = [w for w in want_d if w[0] is not None and w[1] is not None]
+            if seen != want_d:
+                bad("bond-diag-listing", f"bonds('d') = {seen}, the lattice has {want_d}")
 
     # ---- nn_bond_dirn on arbitrary pairs: reference --------------------------------------------------------
     for s0, row in zip(PW, rec["bdirn"]):
@@ -1135,12 +1137,6 @@ def run(ctx):
     cont = [s for s in specs if s["cls"] != "square" or max(s["dims"]) <= 3] + rspecs[:: max(1, len(rspecs) // (40 if ctx.quick else 200))]
     check_containers(ctx, cont)
     ctx.count("time:containers_s", int(time.time() - t3))
-    if ctx.stats.get("finding:T1-tri-full-bonds-typeerror"):
-        ctx.notes.append("recorded (not alarmed): TriangularLattice(full_patch=True).bonds() raises TypeError: _bonds_d is a list, "
-                         "_bonds_h/_bonds_v are tuples (_geometry.py:374, :407); model mirrors it")
-    if ctx.stats.get("finding:T2-tri-full-bond-none"):
-        ctx.notes.append("recorded (not alarmed): TriangularLattice(full_patch=True, boundary='obc'|'cylinder').bonds('d') lists Bond(None, …) "
-                         "entries (_geometry.py:370-373 has no None test); model mirrors it")
 
 
 def search(ctx, broken, budget_s):
